@@ -20,10 +20,8 @@ func ExampleServerFiles(genpkg string, root *expr.RootExpr) []*codegen.File {
 			fw = append(fw, m)
 		}
 	}
-	for _, svc := range root.API.HTTP.Services {
-		if f := dummyMultipartFile(genpkg, root, svc); f != nil {
-			fw = append(fw, f)
-		}
+	if f := dummyMultipartFile(genpkg, root); f != nil {
+		fw = append(fw, f)
 	}
 	return fw
 }
@@ -130,7 +128,7 @@ func exampleServer(genpkg string, root *expr.RootExpr, svr *expr.ServerExpr) *co
 
 // dummyMultipartFile returns a dummy implementation of the multipart decoders
 // and encoders.
-func dummyMultipartFile(genpkg string, root *expr.RootExpr, svc *expr.HTTPServiceExpr) *codegen.File {
+func dummyMultipartFile(genpkg string, root *expr.RootExpr) *codegen.File {
 	mpath := "multipart.go"
 	if _, err := os.Stat(mpath); !os.IsNotExist(err) {
 		return nil // file already exists, skip it.
@@ -154,37 +152,44 @@ func dummyMultipartFile(genpkg string, root *expr.RootExpr, svc *expr.HTTPServic
 		specs := []*codegen.ImportSpec{
 			{Path: "mime/multipart"},
 		}
-		data := HTTPServices.Get(svc.Name())
-		// the payload types are referenced through the service package name
-		// (already accounted for in scope above)
-		specs = append(specs, &codegen.ImportSpec{
-			Path: path.Join(genpkg, data.Service.PathName),
-			Name: data.Service.PkgName,
-		})
-
-		apiPkg := scope.Unique(strings.ToLower(codegen.Goify(root.API.Name, false)), "api")
-		sections = []*codegen.SectionTemplate{codegen.Header("", apiPkg, specs)}
-		for _, e := range data.Endpoints {
-			if e.MultipartRequestDecoder != nil {
-				mustGen = true
-				sections = append(sections, &codegen.SectionTemplate{
-					Name:   "dummy-multipart-request-decoder",
-					Source: readTemplate("dummy_multipart_request_decoder"),
-					Data:   e.MultipartRequestDecoder,
-				})
+		// the file holds the functions of every service that has multipart
+		// endpoints: the example servers and clients refer to all of them
+		for _, svc := range root.API.HTTP.Services {
+			data := HTTPServices.Get(svc.Name())
+			var svcSections []*codegen.SectionTemplate
+			for _, e := range data.Endpoints {
+				if e.MultipartRequestDecoder != nil {
+					svcSections = append(svcSections, &codegen.SectionTemplate{
+						Name:   "dummy-multipart-request-decoder",
+						Source: readTemplate("dummy_multipart_request_decoder"),
+						Data:   e.MultipartRequestDecoder,
+					})
+				}
+				if e.MultipartRequestEncoder != nil {
+					svcSections = append(svcSections, &codegen.SectionTemplate{
+						Name:   "dummy-multipart-request-encoder",
+						Source: readTemplate("dummy_multipart_request_encoder"),
+						Data:   e.MultipartRequestEncoder,
+					})
+				}
 			}
-			if e.MultipartRequestEncoder != nil {
-				mustGen = true
-				sections = append(sections, &codegen.SectionTemplate{
-					Name:   "dummy-multipart-request-encoder",
-					Source: readTemplate("dummy_multipart_request_encoder"),
-					Data:   e.MultipartRequestEncoder,
-				})
+			if len(svcSections) == 0 {
+				continue
 			}
+			mustGen = true
+			// the payload types are referenced through the service package
+			// name (already accounted for in scope above)
+			specs = append(specs, &codegen.ImportSpec{
+				Path: path.Join(genpkg, data.Service.PathName),
+				Name: data.Service.PkgName,
+			})
+			sections = append(sections, svcSections...)
 		}
-	}
-	if !mustGen {
-		return nil
+		if !mustGen {
+			return nil
+		}
+		apiPkg := scope.Unique(strings.ToLower(codegen.Goify(root.API.Name, false)), "api")
+		sections = append([]*codegen.SectionTemplate{codegen.Header("", apiPkg, specs)}, sections...)
 	}
 	return &codegen.File{
 		Path:             mpath,
